@@ -20,6 +20,7 @@ import OFV.Proofs.C07TermInfo
 import OFV.Proofs.C07BosonAdj
 import OFV.Proofs.C07BosonKey
 import OFV.Proofs.C07BosonOp
+import OFV.Proofs.C07HcOp
 import OFV.Proofs.C07BCH8
 import OFV.Proofs.C07BCHExp
 import OFV.Proofs.C07BCHUniv
@@ -190,6 +191,26 @@ theorem hc_qubit_terms (A : List (List (Nat × Nat) × GQ)) (hk : (Dict.keys A).
   unfold hcQubit
   have := foldl_set_fresh (κ := List (Nat × Nat)) (α := GQ) id GQ.conj A [] (by simpa [Dict.keys] using hk)
   simpa using this
+
+/-- **`hc_fermion_operator_adjoint`** — FermionOperator branch at operator level, for ALL stored operators
+(distinct keys, ladder terms, complex coefficients): every Fock matrix element of the dictionary the Model
+function returns is the conjugate-transposed matrix element of the argument,
+`⟨u| hermitian_conjugated(A) |s⟩ = conj ⟨s| A |u⟩` with `⟨u|A|s⟩ = Σ c · ⟨u|t|s⟩` (`den`). -/
+theorem hc_fermion_operator_adjoint (A : List (List (Nat × Nat) × GQ)) (hk : (Dict.keys A).Nodup)
+    (hl : ∀ e ∈ A, Ladder e.1) (s u : Nat) :
+    den (fun t => GQ.ofInt (ampF t s u)) (hcFermion A) = GQ.conj (den (fun t => GQ.ofInt (ampF t u s)) A) := by
+  rw [hc_fermion_terms A hk hl]
+  apply Proofs.C07A.den_image_conj
+  intro e he
+  rw [hc_fermion_term_sound e.1 (hl e he) s u, Proofs.C07A.conj_ofInt]
+
+/-- **`hc_qubit_operator_adjoint`** — QubitOperator branch at operator level, for ALL stored operators whose
+keys are Pauli strings: `⟨u| hermitian_conjugated(A) |s⟩ = conj ⟨s| A |u⟩`. -/
+theorem hc_qubit_operator_adjoint (A : List (List (Nat × Nat) × GQ)) (hk : (Dict.keys A).Nodup)
+    (hp : ∀ e ∈ A, PauliString e.1) (s u : Nat) :
+    den (fun t => ampP t s u) (hcQubit A) = GQ.conj (den (fun t => ampP t u s) A) := by
+  rw [hc_qubit_terms A hk]
+  exact Proofs.C07A.den_image_conj id _ _ A (fun e he => Proofs.C07A.ampP_hermitian e.1 (hp e he) s u)
 
 /-! ### dual-basis shortcuts -/
 
@@ -502,6 +523,16 @@ theorem hc_boson_operator_adjoint (A : List (List (Nat × Nat) × GQ)) (hk : (Di
       GQ.conj (den (fun t => Proofs.C07A.melB t e1 e0) (hcBoson A)) * GQ.ofInt (Proofs.C06B.wfact e0 : Int) := by
   rw [Proofs.C07K.hcBoson_terms A hk hs hl]
   exact Proofs.C07A.hcBoson_image_adjoint A hl e0 e1 h0 h1
+
+/-- QuadOperator branch, dictionary level: on index-sorted stored terms the key map
+`t ↦ sorted(reversed(t))` is injective, so nothing is overwritten and the Model function returns the
+term-by-term image `(sorted(reversed(t)), conj c)`, in order. -/
+theorem hc_quad_terms (A : List (List (Nat × Nat) × GQ)) (hk : (Dict.keys A).Nodup)
+    (hs : ∀ e ∈ A, e.1.Pairwise (fun a b => a.1 ≤ b.1)) :
+    (∀ a ∈ A, ∀ b ∈ A, sortF a.1.reverse = sortF b.1.reverse → a.1 = b.1) ∧
+    hcQuad A = A.map (fun e => (sortF e.1.reverse, e.2.conj)) :=
+  ⟨fun a ha b hb h => Proofs.C07A.quad_key_injective a.1 b.1 (hs a ha) (hs b hb) h,
+   Proofs.C07A.hcQuad_terms A hk hs⟩
 
 /-- QuadOperator branch: `q_j`, `p_j` are self-adjoint, so the involution is word reversal; the stored
 key `sorted(reversed(t))` denotes the reversed word for every `ħ` and every monomial. -/
